@@ -25,7 +25,7 @@ def _replay_part(args):
     cfg = write_cfg(os.path.join(wd, 'BlockInt-%d.cfg' % part),
                     'CONSTANTS P = %d T = %d PAD = 64 NMax = %d\nCONSTANT AS = {%s}\n'
                     'SPECIFICATION Spec\nINVARIANT RemRange\nINVARIANT FileLen\nINVARIANT FinalBlocks\n'
-                    'INVARIANT FinalWhole\nCHECK_DEADLOCK FALSE\n' % (P, T, nmax, ', '.join(map(str, aset))))
+                    'INVARIANT FinalWhole\nINVARIANT ApaAgrees\nCHECK_DEADLOCK FALSE\n' % (P, T, nmax, ', '.join(map(str, aset))))
     bad, drift, count = [], 0, 0
     sample = []
 
@@ -177,6 +177,30 @@ def trace_validation(rep, wd, tier, seed):
     validate_batches(rep, wd, 'Trace_Block', 'Trace_Block.cfg', batches, 'blocker-trace', describe)
 
 
+def apalache_induction(rep, wd):
+    """unbounded histories and write lengths: inductive invariant of the integer skeleton, discharged by Apalache"""
+    import subprocess
+    import time
+    out = os.path.join(wd, 'apalache')
+    obligations = [('Init => IndInv', ['--init=Init', '--inv=IndInv', '--length=0']),
+                   ('IndInv /\\ Next => IndInv\' /\\ FinalLen\'', ['--init=IndInit', '--inv=Inv', '--length=1'])]
+    done = []
+    for name, args in obligations:
+        t0 = time.time()
+        try:
+            p = subprocess.run(['apalache-mc', 'check'] + args + ['--out-dir=' + out, 'BlockIntInd.tla'], cwd=core.SPEC,
+                               stdout=subprocess.PIPE, stderr=subprocess.STDOUT, text=True, timeout=600)
+        except subprocess.TimeoutExpired:
+            raise core.MachineryError('Apalache timed out on ' + name)
+        if 'EXITCODE: OK' not in p.stdout:
+            raise core.MachineryError('Apalache did not discharge %s:\n%s' % (name, p.stdout[-1500:]))
+        done.append({'obligation': name, 'wall_s': round(time.time() - t0, 1)})
+    rep.extra['apalache_inductive_invariant'] = {'module': 'spec/BlockIntInd.tla', 'discharged': done,
+                                                 'meaning': 'for write histories of any length with write lengths over all '
+                                                 'naturals the skeleton keeps IndInv and finalises to a whole number of blocks, '
+                                                 'the least possible or one more'}
+
+
 def model_check(rep, wd, tier):
     cfg = write_cfg(os.path.join(wd, 'MC_Blocker.cfg'),
                     'CONSTANTS P = %d T = 2 PAD = 0 MaxWrites = %d MaxLen = %d\nSPECIFICATION MCSpec\n'
@@ -193,6 +217,7 @@ def run(rep, wd, tier, seed):
                         'direction compares concrete bytes inside TLC without it)',
                         'wrapped file object is io.BytesIO']
     model_check(rep, wd, tier)
+    apalache_induction(rep, wd)
     stream_replay(rep, wd, tier, seed)
     trace_validation(rep, wd, tier, seed)
     rep.exhaustive = tier == 'thorough'
